@@ -474,6 +474,20 @@ Definition lift_d (f : obj -> obj * dres) : M bool :=
 
 Definition opt_m {A} (o : option A) : M A := match o with Some a => ret a | None => throw (-1) end.
 
+(* an INHERITED accessor (a VGet in the prototype part) also has a setter, which logs [7; id; value] and stores
+   nothing: [[Put]] on a name that is not an own property and is inherited as such an accessor calls that
+   setter, whatever [[Extensible]] says (8.12.4 steps 5-7, 8.12.5 step 5) *)
+Definition setter_of (o : obj) (k : key) : option Z :=
+  match get_own o k with
+  | Some _ => None
+  | None => match get_inherited o k with
+            | Some p => match pv p with VGet id _ _ _ _ => Some id | _ => None end
+            | None => None
+            end
+  end.
+Definition setter_log (o : obj) (k : key) (v : val) : list (list val) :=
+  match setter_of o k with Some id => [[VNum 7; VNum id; v]] | None => [] end.
+
 (* ---------- dialect ---------- *)
 Record dialect := mkDia {
   dia_define : obj -> key -> desc -> bool -> obj * dres;   (* [[DefineOwnProperty]] of an Array *)
@@ -529,7 +543,11 @@ Definition m_has_in (w : Z) (k : key) : M bool :=
   fun s => match sel_obj s w with None => Ex (-1) s | Some o => Ok (has o k) s end.
 Definition m_get (k : key) : M val := m_get_in (-1) k.
 Definition m_has (k : key) : M bool := m_has_in (-1) k.
-Definition m_put (k : key) (v : val) : M unit := lift_d (fun o => put o k v true) ;;; ret tt.
+Definition m_put (k : key) (v : val) : M unit :=
+  fun s => match setter_of (s_o s) k with
+           | Some id => Ok tt (mkS (s_o s) (s_log s ++ [[VNum 7; VNum id; v]]) (s_cb s) (s_lg s) (s_args s))
+           | None => (lift_d (fun o => put o k v true) ;;; ret tt) s
+           end.
 Definition m_del (k : key) : M unit := lift_d (fun o => delete o k true) ;;; ret tt.
 Definition m_len : M Z :=
   fun s =>
@@ -546,7 +564,13 @@ Definition m_call (cur : Z) (entry : list val) : M val :=
     match s_cb s with
     | [] => Ok VUndef s1
     | c :: rest =>
-        let s2 := mkS (s_o s1) (s_log s1) rest (s_lg s) (s_args s) in
+        let slog := match cb_mut c with
+                    | MPut k v => setter_log (s_o s1) k v
+                    | MPutCur v => setter_log (s_o s1) (KI cur) v
+                    | MAppend v => match to_uint32 (get (s_o s1) KLen) with Some n => setter_log (s_o s1) (KI n) v | None => [] end
+                    | _ => []
+                    end in
+        let s2 := mkS (s_o s1) (s_log s1 ++ slog) rest (s_lg s) (s_args s) in
         let r := match cb_mut c with
                  | MNone => (s_o s2, DTrue)
                  | MPut k v => put (s_o s2) k v false
@@ -910,21 +934,36 @@ Definition m_tostring (args : list marg) : M rv :=
     else Ok (RVal (VStr [91; 111; 98; 106; 101; 99; 116; 32; 79; 98; 106; 101; 99; 116; 93])) s.
 
 (* 15.4.4.3 with the locale-independent cases of toLocaleString: strings, booleans, integers below 1000 *)
-Definition locale_elem (v : val) : M (list Z) :=
+(* cfg = (strings, numbers, booleans): what X.prototype.toLocaleString is for each primitive type:
+   0 the built-in; 1 a script function that logs [6; type; this-is-an-object] and returns "<" + this + ">";
+   2 not callable (TypeError, 15.4.4.3 step 8.b / 10.d) *)
+Definition locale_cfg := (Z * Z * Z)%type.
+Definition locale_elem (cfg : locale_cfg) (v : val) : M (list Z) :=
+  let '(cs, cn, cb) := cfg in
+  let go (c ty : Z) (native : M (list Z)) : M (list Z) :=
+    if c =? 0 then native
+    else if c =? 1 then
+      fun s => match to_string v with
+               | Some t => Ok (60 :: t ++ [62]) (mkS (s_o s) (s_log s ++ [[VNum 6; VNum ty; VBool true]]) (s_cb s) (s_lg s) (s_args s))
+               | None => Ex (-1) s
+               end
+    else throw 6 in
   match v with
   | VUndef | VNull => ret []
-  | VNum z => if Z.abs z <? 1000 then opt_m (to_string v) else throw (-1)
-  | VStr _ | VBool _ => opt_m (to_string v)
+  | VNum z => go cn 1 (if Z.abs z <? 1000 then opt_m (to_string v) else throw (-1))
+  | VStr _ => go cs 0 (opt_m (to_string v))
+  | VBool _ => go cb 2 (opt_m (to_string v))
   | VDbl _ | VGet _ _ _ _ _ => throw (-1)
   end.
-Definition m_tolocalestring (args : list marg) : M rv :=
+Definition m_tolocalestring_cfg (cfg : locale_cfg) (args : list marg) : M rv :=
   len <- m_len ;;
   if len =? 0 then ret (RVal (VStr [])) else
   n <- cnt (len - 1) ;;
   e0 <- m_get (KI 0) ;;
-  r0 <- locale_elem e0 ;;
-  r <- fold_up n 1 r0 (fun k acc => e <- m_get (KI k) ;; s <- locale_elem e ;; ret (acc ++ [44] ++ s)) ;;
+  r0 <- locale_elem cfg e0 ;;
+  r <- fold_up n 1 r0 (fun k acc => e <- m_get (KI k) ;; s <- locale_elem cfg e ;; ret (acc ++ [44] ++ s)) ;;
   ret (RVal (VStr r)).
+Definition m_tolocalestring := m_tolocalestring_cfg (0, 0, 0).
 
 (* method numbering shared with the harness *)
 Definition method (m : Z) : option (list marg -> M rv) :=
@@ -985,9 +1024,16 @@ Definition call_method (D : dialect) (o : obj) (m : Z) (args : list marg) (cbs :
               end
   end.
 
+(* toLocaleString under a given configuration of the primitive prototypes: outcome and log *)
+Definition run_locale (D : dialect) (cfg : locale_cfg) (o : obj) : outcome * list (list val) :=
+  match m_tolocalestring_cfg D cfg [] (mkS o [] [] false []) with
+  | Ok r s => (Ret r, s_log s)
+  | Ex c s => (Thrown c, s_log s)
+  end.
+
 Definition step (D : dialect) (o : obj) (x : op) : obj * outcome * list (list val) :=
   match x with
-  | OSet k v => let '(o', r) := put D o k v false in (o', dres_outcome r (RVal v), [])
+  | OSet k v => let '(o', r) := put D o k v false in (o', dres_outcome r (RVal v), setter_log o k v)
   | ODel k => let '(o', r) := delete o k false in
               (o', match r with DThrow c => Thrown c | DTrue => Ret (RVal (VBool true)) | DFalse => Ret (RVal (VBool false)) end, [])
   | ODef k d => let '(o', r) := define_own D o k d true in (o', dres_outcome r RThis, [])
